@@ -35,6 +35,9 @@ type op struct {
 	obj    any
 	arg    int
 	result int
+	// announced: a Lock call that found the mutex taken and now waits inside sync.RWMutex.Lock (from then on it holds back new
+	// readers). A thread standing at Lock that has not been scheduled since is still before the call.
+	announced bool
 }
 
 type thread struct {
@@ -198,6 +201,9 @@ func Run(ctx *explore.Ctx, bodies []func(s *Sched, tid int)) Result {
 		s.cur = t.id
 		s.perform(t)
 		s.res.Steps++
+		if t.pending != nil {
+			continue // the step only entered a Lock call that has to wait
+		}
 		t.started = true
 		t.resume <- struct{}{}
 		<-s.yield
@@ -241,13 +247,16 @@ func (s *Sched) isEnabled(t *thread) bool {
 		if !ok {
 			s.res.Contended = true
 		}
-		return ok
+		return ok || !o.announced // entering the call (and starting to wait) is a step of its own
 	case rt.OpRLock:
 		l := s.lock(o.obj)
 		if l.writer != -1 {
 			s.res.Contended = true
 		}
-		return l.writer == -1
+		// sync.RWMutex prefers writers: once a goroutine waits in Lock, no RLock succeeds before that writer has had its turn -
+		// not even the RLock of a goroutine that already holds the lock for reading (a recursive read lock, then, deadlocks).
+		// Only a Lock call that has begun and waits counts (op.announced): entering the call is a scheduling step of its own.
+		return l.writer == -1 && !s.writerWaiting(o.obj, t.id)
 	case rt.OpOnceDo:
 		if st, ok := s.onces[o.obj]; ok && st.state == 1 && st.by != t.id {
 			return false
@@ -260,6 +269,16 @@ func (s *Sched) isEnabled(t *thread) bool {
 		return true
 	}
 	return true
+}
+
+// writerWaiting reports whether a thread other than self stands at Lock of obj.
+func (s *Sched) writerWaiting(obj any, self int) bool {
+	for _, t := range s.threads {
+		if t.id != self && !t.done && t.pending != nil && t.pending.kind == rt.OpLock && t.pending.obj == obj && t.pending.announced {
+			return true
+		}
+	}
+	return false
 }
 
 func (s *Sched) enabled() []int {
@@ -277,6 +296,12 @@ func (s *Sched) perform(t *thread) {
 	o := t.pending
 	if o == nil {
 		return
+	}
+	if o.kind == rt.OpLock {
+		if l := s.lock(o.obj); l.writer != -1 || len(l.readers) != 0 {
+			o.announced = true // the call has begun and waits; the thread stays at this operation
+			return
+		}
 	}
 	t.pending = nil
 	switch o.kind {
@@ -299,7 +324,7 @@ func (s *Sched) perform(t *thread) {
 		}
 	case rt.OpTryRLock:
 		l := s.lock(o.obj)
-		if l.writer == -1 {
+		if l.writer == -1 && !s.writerWaiting(o.obj, t.id) {
 			l.readers[t.id]++
 			t.vc.join(l.relW)
 			o.result = 1
